@@ -197,11 +197,14 @@ def run(ch: Checker) -> None:
                 for side in (st.value.left, st.value.right):
                     if 'DEFAULT_SELECTOR_SELECT_TIMEOUT' not in norm(side):
                         cname = norm(side)
+        if cname is None and counter is not None and counter.isidentifier():
+            cname = counter          # found by value in the elapsed test (the period may be held in a named temporary)
         for p in g.paths(start=head.id, stop=lambda nd: nd.id == head.id or nd.kind == 'exit', limit=20000):
             if p.end != head.id or not feasible(p) or leaves_flag_loop(xloop, p):
                 continue
             n_cyc += 1
             incs = 0
+            net: Any = ('t', 0)          # the counter's value as a function of its value t on entry: ('t', k) = t + k, ('c', k) = the constant k
             resets = 0
             reaped = False
             reap_fact = None
@@ -211,10 +214,12 @@ def run(ch: Checker) -> None:
                     reap_fact = lab
                 if nd.kind == 'stmt' and nd.ast is not None:
                     st = nd.ast
-                    if isinstance(st, ast.AugAssign) and norm(st.target) == cname and isinstance(st.op, ast.Add) and norm(st.value) == '1':
+                    if isinstance(st, ast.AugAssign) and norm(st.target) == cname and isinstance(st.op, ast.Add) and isinstance(st.value, ast.Constant) and isinstance(st.value.value, int):
                         incs += 1
-                    if isinstance(st, ast.Assign) and norm(st.targets[0]) == cname and norm(st.value) == '0':
+                        net = (net[0], net[1] + st.value.value)
+                    if isinstance(st, ast.Assign) and norm(st.targets[0]) == cname and isinstance(st.value, ast.Constant) and isinstance(st.value.value, int) and not isinstance(st.value.value, bool):
                         resets += 1
+                        net = ('c', st.value.value)
                         if not reaped:
                             bad_reset = ('the tick counter is reset on a way round the loop on which the reaper did not run', p.describe(16))
                     if any(isinstance(c, ast.Call) and attr_chain(c.func) == 'self._cleanup_inactive' for c in walk_no_nested(st)):
@@ -222,7 +227,8 @@ def run(ch: Checker) -> None:
                         reap_paths += 1
                         if reap_fact is not True:
                             bad_reap = ('the reaper runs on a path that did not establish elapsed >= cleanup_inactive_timeout', p.describe(16))
-            if cname is None or incs != 1:
+            # one tick per way round: t + 1, or -- where the reaper ran and the count restarts -- the constant 0 or 1
+            if cname is None or not (net == ('t', 1) or (reaped and net[0] == 'c' and net[1] in (0, 1))):
                 bad_inc = ('on a way round the executor loop the tick counter `%s` that feeds the elapsed-time test is advanced %d time(s) inside the loop (exactly once expected): '
                            'if ticks are only counted on some iterations (e.g. only when select timed out) a busy neighbour connection keeps the reaper from ever running and idle '
                            'connections are never closed' % (cname, incs), p.describe(16))
